@@ -197,7 +197,7 @@ def fault_stage(run, pid, tier, seed, results, judge, identity, only=None):
     run.cov["evaluations"] = run.cov.get("evaluations", 0) + nfault
 
 
-def dryrun_fault_stage(run, pid, tier, seed, results, identity):
+def dryrun_fault_stage(run, pid, tier, seed, results, identity, judge="judge11f"):
     """C11 under API faults: the dry-run request of one object of a rollout fails (error before effect, or response
     lost).  The dry run then has not accepted the object, so the pass must not write anything.  Judged by m11f on the
     scenario in which that object is marked as rejected by the dry run (the model's way of saying "not accepted")."""
@@ -234,7 +234,7 @@ def dryrun_fault_stage(run, pid, tier, seed, results, identity):
         except pl.Unrepresentable as e:
             run.violation("corr:%s/observation outside the model's event language: %s" % (pid, e),
                           {"correspondence": "PhaseCorr event language (dry-run fault stage)", "scenario": sc, "impl": obs}, False)
-    res, logs = vlib.judge_cases(pid + "d", IMPORTS, "judge11f", terms, 2)
+    res, logs = vlib.judge_cases(pid + "d", IMPORTS, judge, terms, 2)
     for l in logs:
         run.violation("corr:%s/coq-eval" % pid, {"correspondence": "coq evaluation failed", "log": l}, False)
     n = 0
